@@ -145,6 +145,23 @@ def judge(ctx, case, conforming=False):
         ctx.count("clean_inputs")
 
 
+def judge_injected(ctx, case):
+    from .. import h5
+    from html5lib import html5parser
+    p = html5parser.HTMLParser(h5.tb("etree"))
+    try:
+        p.parse(case["input"])
+    except Exception:
+        return  # C03's subject
+    ctx.count("injected_error_documents")
+    ctx.add("injection_kinds", case["injected"])
+    ctx.case(["injected", case["input"]], nontrivial=True)
+    if not p.errors:
+        ctx.violation("injected-parse-error-not-reported:" + case["injected"], case,
+                      "a document with one %s records no parse error (strict mode would return a tree)" % case["injected"])
+    judge(ctx, {"input": case["input"], "frag": False})
+
+
 def omitted_variant(ctx, rng, doc):
     """The same conforming document with optional tags left out wherever the syntax's omission rules (R-omit, the
     checker's own reading; DESIGN Appendix D) allow it - still a conforming document, so it must record no error."""
@@ -195,6 +212,11 @@ def shard(ctx):
             vm, has_tail = conform.variant(rng, doc)
             ctx.count("conforming_documents_in_variant_spelling")
             judge(ctx, {"input": vm, "frag": False, "conforming": True, "variant": True}, conforming=True)
+            # the converse: the same document with ONE construct the standard defines as a parse error must record an error
+            # (and, by the pairing clause above, make strict mode raise)
+            bad, kind = conform.inject_error(rng, doc)
+            if bad is not None:
+                judge_injected(ctx, {"input": bad, "frag": False, "injected": kind})
             om = omitted_variant(ctx, rng, doc)
             if om is not None and om != case["input"]:
                 case = {"input": om, "frag": False, "conforming": True, "omitted": True}
@@ -211,6 +233,9 @@ def shard(ctx):
 
 
 def replay(ctx, case):
+    if case.get("injected"):
+        judge_injected(ctx, case)
+        return
     judge(ctx, case, conforming=bool(case.get("conforming")))
 
 
